@@ -349,6 +349,14 @@ class Run:
                 ret = proc.fail(exc, None)
             elif kind == 'cancel_future':
                 ret = proc.future().cancel()
+            elif kind == 'foreign_exception':
+                # somebody who holds the process's future resolves it with an exception of their own (misuse, but possible: the future is
+                # handed out); whatever the process makes of it, it does not leave a terminal state once it is in one
+                fut = proc.future()
+                ret = False
+                if not fut.done():
+                    fut.set_exception(ProgError(arg))
+                    ret = True
             elif kind == 'rpc_pause':
                 # the pause arrives as a message (what a communicator delivers); the reply future is what the sender gets
                 from plumpy.process_comms import MessageBuilder
